@@ -158,8 +158,13 @@ namespace
     }
 } // namespace
 
-void* virtual_memory_allocator::allocate_node(std::size_t size, std::size_t)
+void* virtual_memory_allocator::allocate_node(std::size_t size, std::size_t alignment)
 {
+    // pages are aligned for the page size and nothing more
+    detail::check_allocation_size<bad_alignment>(
+        alignment, virtual_memory_page_size,
+        {FOONATHAN_MEMORY_LOG_PREFIX "::virtual_memory_allocator", this});
+
     auto no_pages = calc_no_pages(size);
     auto pages    = virtual_memory_reserve(no_pages);
     if (!pages || !virtual_memory_commit(pages, no_pages))
